@@ -38,7 +38,16 @@ def main(argv=None):
         if getattr(repo, 'renamed', None):
             res.note('renamed methods judged under their recorded names: %s' % ', '.join(
                 '%s (now %s)' % (o, n) for n, o in sorted(repo.renamed.items())))
-        mod.check(repo, res, tier)
+        try:
+            mod.check(repo, res, tier)
+        except AnalysisError as e:
+            # a rule lost its anchor part-way: if other rules have already reported new violations,
+            # those explain the change and are the verdict; otherwise the run has no verdict (exit 2)
+            from .report import load_known, norm_construct
+            known_, _ = load_known()
+            if not [f for f in res.findings if norm_construct(f.key) not in known_]:
+                raise
+            res.note('analysis stopped early (%s); the violations found up to that point are reported' % e)
         floors = getattr(mod, 'FLOORS', {})
         counts = {}
         for i in res.instances:
